@@ -281,6 +281,17 @@ stores as they were, because the message runs on a branch that is written back o
 theorem rejected_message_leaves_stores_unchanged (f : Stores → Res × Stores) (S : Stores)
     (h : (viaCache f S).1 = .err) : (viaCache f S).2 = S := viaCache_err f S h
 
+/-- (d) for EVERY handler kind — guard first, work before the guard, early returns, delegation, an unresolved method,
+whatever the world does — a routed message that ends in an error leaves the state exactly as it was, because the router
+runs it on a branch that is only written back on success -/
+theorem any_handler_rejected_state_unchanged {σ : Type} (P : Program) (infos : List MsgInfo) (env : Env) (auth : Str)
+    (W : World σ) (payloadOk : Bool) (T m msg : String) (s : σ)
+    (h : (onBranch (routed P infos env auth W payloadOk T m msg) s).1 = .err) :
+    (onBranch (routed P infos env auth W payloadOk T m msg) s).2 = s := by
+  unfold onBranch at h ⊢
+  cases hf : routed P infos env auth W payloadOk T m msg s with
+  | mk r s' => cases r <;> simp [hf] at h ⊢
+
 /-! ## (c) the raw store update in full -/
 
 /-- the regenerated loop program (statements of the handler's `range req.UpdateStores` loop in SOURCE ORDER) computes,
